@@ -450,6 +450,8 @@ def check_buildoutput(rep, prog):
                   "C01.R5.naming", "stored value is the i-th section's own content", where, e.node,
                   "entry value is not taken from the section being named: %r" % (val,), node=e.node)
         base = key.args[0] if isinstance(key, Op) and key.op in ("concat", "fmt") else key
+        if isinstance(base, Op) and base.op == "fv" and base.args[1] == Const("") and base.args[2] == Const(""):
+            base = base.args[0]          # f'{name} ...' of a string is the string
         name_terms.add(base)
         if isinstance(key, Op) and key.op in ("concat", "fmt"):
             ok = len(key.args) == 3 and key.args[1] == Const(" ") and isinstance(key.args[2], Op) and key.args[2].op in ("str", "fv")
